@@ -292,6 +292,13 @@ func (r *Raft) onInstallSnapRequest(req *installSnapReq, c *conn) (rpcResult, er
 	r.setState(Follower)
 	r.setLeader(req.src)
 
+	if req.lastIndex <= r.snaps.index {
+		// stale req, may be from old connection: we already have
+		// this snapshot or a later one. storing it would take our
+		// snapshot index, and may be log also, backwards
+		return drain(success, nil)
+	}
+
 	// store snapshot
 	sink, err := r.snaps.new(req.lastIndex, req.lastTerm, req.lastConfig)
 	if err != nil {
